@@ -224,6 +224,20 @@ CLAIMED = {
             "The judge makes no prediction of its own: fidelity of the parser, serializer and sanitizer models comes from C01, C08, C09 "
             "and the exact replay. Five known findings, two of which need non-default allow-lists. The list of parser-made elements in "
             "Corresponds and the dispatcher rules in NsValid are ASSUMED (transcribed from memory).", "5/C10"),
+    "C07": ("model_checking",
+            "TLA+ specs ContentModel (generator of conforming documents as a state machine over the open-element stack + recursive "
+            "conformance judge) and RoundTrip (walker, reference serializer, optional-tag omission via OptionalTags, the parser "
+            "specification Pipeline); TLC theorems fixpoint / omit; exported trees materialised WITHOUT the parser as ElementTree and "
+            "minidom, serialized by the real HTMLSerializer under option vectors, re-parsed by the real parser and by the TLA+ parser "
+            "(Trace_RoundTrip)",
+            "TLC proves that every generated tree (13 themes) is conforming, is a fixpoint of parse o reference-serialize on the parser "
+            "specification, and is unchanged by the intended optional-tag omission; every exported tree is serialized by the real "
+            "serializer under a pairwise covering array of 12 option factors (full 18432-vector product on option-sensitive trees), "
+            "every distinct output is re-parsed by the real parser with both builders and a seeded subset (all failing outputs) by the "
+            "specification's parser in TLC; failures are attributed to listed findings by neutralising exactly one construct.",
+            "Identity up to two stated normalisations (sorted attributes under alphabetical_attributes; canonical boolean values under "
+            "minimize_boolean_attributes). The conforming class is a stated subset (no noscript/audio/video/ins/del, no control "
+            "characters, title optional). inject_meta_charset is left to C15; the serializer's output string is predicted by C08.", "5/C07"),
 }
 
 NOT_YET = "check not built yet in this round (planned, see DESIGN.md section 5)"
